@@ -357,6 +357,12 @@ def inline_single_defs(expr, fd, depth=2, any_value=False):
     for n in walk_no_nested(fd):
         if isinstance(n, ast.Assign) and len(n.targets) == 1 and isinstance(n.targets[0], ast.Name):
             defs.setdefault(n.targets[0].id, []).append(n.value)
+        elif isinstance(n, ast.Assign):
+            # destructuring / chained assignment: the names are (re)bound, but not to one expression
+            for t in n.targets:
+                for x in ast.walk(t):
+                    if isinstance(x, ast.Name) and isinstance(x.ctx, ast.Store):
+                        defs.setdefault(x.id, []).extend([None, None])
         elif isinstance(n, (ast.AugAssign, ast.For, ast.NamedExpr)):
             t = n.target
             for x in ast.walk(t):
